@@ -5,6 +5,7 @@ import (
 	"sort"
 	"strings"
 	"sync/atomic"
+	"unicode/utf8"
 
 	"github.com/istio-ecosystem/authservice/zzverif/ev"
 	"github.com/istio-ecosystem/authservice/zzverif/par"
@@ -249,6 +250,17 @@ func c13Run(run *ev.Run) {
 	type tgt struct{ scheme, host, target string }
 	targets := []tgt{{"https", "app.test", "/"}, {"https", "app.test", "/a?x=1&y=%2F"}, {"http", "app.test:8080", "/p?next=https%3A%2F%2Fe.com%2F%3Fa%3Db"},
 		{"https", "app.test", "/s;v=1/@:,"}, {"https", "app.test", "/q?a=b&a=c"}, {"https", "app.test", "/q?%zz"}, {"https", "app.test", "/d%20ir/f%2Fg/100%25"}, {"https", "app.test", "/\xc3\xbc?\xff=\xfe"}}
+	// the shared odd-string alphabet: as client id, as scope, inside the requested target
+	for _, odd := range oddStrings {
+		// (protobuf strings are valid UTF-8 and the loader refuses ':' in a client id)
+		if odd != "" && !strings.Contains(odd, ":") && utf8.ValidString(odd) && !strings.ContainsAny(odd, "\x00") {
+			clientIDs = append(clientIDs, "c"+odd)
+		}
+		if run.Tier == "thorough" {
+			targets = append(targets, tgt{"https", "app.test", "/t" + odd + "?q=" + odd})
+		}
+	}
+	targets = append(targets, tgt{"https", "app.test", "/t%2F%25%20\"';?q=%zz&r=\"&s=a;b"})
 	stores := []string{"memory"}
 	if run.Tier == "thorough" {
 		stores = []string{"memory", "redis"}
